@@ -457,6 +457,7 @@ func indent(s string) string {
 }
 
 func TestC10Serialisable(t *testing.T) {
+	defer vt.Watch("TestC10Serialisable", 120*time.Second)()
 	rec := vt.For("C10")
 	rec.Rule("serialisability (harness-owned scheduler, store-call granularity): 2-3 operations of different identities drawn from {keep-alive of a client, keep-alive of its host, peer request, connect of a new client, link a node to a wallet, withdrawal} start from an identical prepared pool (hosts, billed clients, optional wallet link/credit/deposit/minimum) and are interleaved at every store call and settle call by rapid draws; oracle: replies (nonce decisions, errors, invalid/active peer sets, returned hosts; the balance figure printed in a keep-alive reply is not compared) + full final state incl. every balance (relative timestamps) must equal those of SOME permutation executed one at a time on a fresh identical pool (all <=3! permutations run); non-trivial = the schedule actually interleaves two operations; distinct by config + ops + schedule")
 	rapid.Check(t, func(rt *rapid.T) {
@@ -474,6 +475,7 @@ type heldValue struct {
 }
 
 func TestC10Snapshots(t *testing.T) {
+	defer vt.Watch("TestC10Snapshots", 120*time.Second)()
 	rec := vt.For("C10")
 	rec.Rule("snapshots: every Balance / Node / Stats value handed out by a store (memory, badger) or by the pool (update replies) during a generated history of credits, links, keep-alives and node updates is retained with a deep digest taken at receipt; after every later operation all retained values are re-digested and must be unchanged; non-trivial = >=3 credits to one balance after a snapshot of it was taken; distinct by driver + op sequence")
 	rapid.Check(t, func(rt *rapid.T) {
